@@ -141,6 +141,8 @@ PreludeTypes == <<
   "struct SA { int a[2]; int m2[2][2]; struct { int m[2]; } in; int x; };",
   "typedef int A2[2];",
   "char gch; short gsh; unsigned gun; long glo; unsigned long gul;",
+  "_Thread_local int gtl; _Thread_local struct T gtls; _Thread_local int gtla[2];",
+  "extern _Thread_local int gtle; extern _Thread_local struct T gtles; extern _Thread_local int gtlea[2];",
   "#define NIL ((td_t *)0)",   \* td_t is int; no keyword in the body: pp.c:keyword() frees the spelling of a keyword token that the macro body still owns, so a second use of such a macro reads freed memory (reported, C12/C19)
   "#define MF(a, b) ((a) + (b))",
   "#define MG(a, b) ((a) b)",
@@ -148,6 +150,11 @@ PreludeTypes == <<
   "extern int gex;",
   "int gdef = 5;",
   "int gfd(int a) { return a; }">>
+
+(* further declarations at the top of zbase's body (objects of automatic and of block-scope thread storage duration) *)
+PreludeLocals == <<
+  "struct T lst; int lar[2];",
+  "static _Thread_local int ltl; static _Thread_local struct T ltls; static _Thread_local int ltla[2];">>
 
 (* value type of an operand after lvalue conversion / array and function decay (6.3.2.1) *)
 VT(o) == LET t == Ent(o).ty IN
